@@ -7,10 +7,10 @@ import re
 from vlib import core
 
 
-def ps_cfg(path, nc, lock, maxops, schedlen, mode):
+def ps_cfg(path, nc, lock, maxops, schedlen, mode, opfilter="all"):
     with open(path, "w") as f:
-        f.write("CONSTANTS NC = %d UseLock = %s MaxOps = %d SchedLen = %d\nSPECIFICATION Spec\n" %
-                (nc, "TRUE" if lock else "FALSE", maxops, schedlen))
+        f.write('CONSTANTS NC = %d UseLock = %s MaxOps = %d SchedLen = %d OpFilter = "%s"\nSPECIFICATION Spec\n' %
+                (nc, "TRUE" if lock else "FALSE", maxops, schedlen, opfilter))
         if mode == "locked":
             f.write("INVARIANTS Atomic MutualExclusion\nVIEW View\n")
         elif mode == "locked-emit":
@@ -96,6 +96,18 @@ def run(ctx):
     rnd.shuffle(lk)
     lk = lk[:150 if quick else 2000]
     cases += [{"progs": v["progs"], "sched": v["sched"], "mode": "directed", "seed": ctx.seed, "tag": "locked"} for v in lk]
+    # all behaviours over the slice-valued parameter only (artifact written after Artifact() returned)
+    ps_cfg(os.path.join(d, "V.cfg"), 2, True, 2, 7, "locked-emit", "vec")
+    r = core.run_tlc(d, "ParamServer", "V.cfg", files=[(os.path.join(d, "V.cfg"), "V.cfg")], workers=core.NCPU, timeout=1500)
+    ctx.add_tlc(r)
+    vec = {json.dumps(v, sort_keys=True): v for v in r.values if isinstance(v, dict) and "sched" in v}
+    vec = [vec[k] for k in sorted(vec)]
+    vec = [v for v in vec if any(o["op"] == "art" for p in v["progs"] for o in p) and
+           sum(1 for p in v["progs"] for o in p if o["op"] == "upd") >= 2]
+    rnd.shuffle(vec)
+    vec = vec[:700 if quick else 5000]
+    ctx.extra["slice_parameter_schedules"] = len(vec)
+    cases += [{"progs": v["progs"], "sched": v["sched"], "mode": "directed", "seed": ctx.seed, "tag": "vec"} for v in vec]
     ctx.extra["directed_cases"] = len(cases)
     bad, _ = run_cases(ctx, vh, cases, "directed")
     report(ctx, cases, bad)
